@@ -57,7 +57,13 @@ func (e *Eng) appendBytes(s SliceVal, src SliceVal) SliceVal {
 }
 
 func (e *Eng) copyBytes(dst, src SliceVal) *Term {
-	n := e.min64(dst.Len, src.Len)
+	// resolve the minimum by a decision: keeps copy lengths free of ite terms
+	var n *Term
+	if dst.Len == src.Len || e.Decide(e.tb.Sle(dst.Len, src.Len)) {
+		n = dst.Len
+	} else {
+		n = src.Len
+	}
 	if dst.Obj == nil || src.Obj == nil {
 		return e.tb.I64(0)
 	}
